@@ -227,12 +227,21 @@ def run_case(case, res):
             for rname, fn in routes.items():
                 for ext_state in ("raising", "built") if rname == "routed" and lib is not None else ("raising",):
                     ext._lib = cppext.Raising() if ext_state == "raising" else lib
+                    t1, t2 = t1.clone(), t2.clone()  # fresh objects per session
                     with Session(res) as m:
                         X1, X2 = m.symbolic(t1, "a"), m.symbolic(t2, "b")
                         r1 = fn(t1)
                         r2 = fn(t2)
                         r3 = fn(t1)
                         R1, R2, R3 = m.read(r1), m.read(r2), m.read(r3)
+                        # a returned result belongs to the caller: overwriting it must not change what the next call returns
+                        r3.add_(1)
+                        r4 = fn(t1)
+                        R4 = m.read(r4)
+                        # the payload rewritten through an alias that does not bump the version counter must be unpacked afresh
+                        t1.data.copy_(t2)
+                        r5 = fn(t1)
+                        R5 = m.read(r5)
                     b = bit.Bit(m.ctx)
 
                     def oracle(X):
@@ -242,6 +251,7 @@ def run_case(case, res):
 
                     O1, O2 = oracle(X1), oracle(X2)
                     neq = [b.tr(x) != o for x, o in zip(R1.reshape(-1), O1)] + [b.tr(x) != o for x, o in zip(R2.reshape(-1), O2)] + [b.tr(x) != o for x, o in zip(R3.reshape(-1), O1)]
+                    neq += [b.tr(x) != o for x, o in zip(R4.reshape(-1), O1)] + [b.tr(x) != o for x, o in zip(R5.reshape(-1), O2)]
                     v, secs, model = api.solve([z3.Or(*neq)], 60)
                     res.query("earlier-results-unaffected-by-later-calls", "BIT", v, secs, sub=f"{rname}/{ext_state} {shape}", nvars=2 * t1.numel())
                     if v == "sat":
@@ -347,6 +357,15 @@ def replay(rec):
         r2 = fn(t2)
         r3 = fn(t)
         bad = not (torch.equal(r1, orc(t)) and torch.equal(r2, orc(t2)) and torch.equal(r3, orc(t)))
+        exp1 = orc(t)
+        r3.add_(1)
+        r4 = fn(t)
+        if not torch.equal(r4, exp1):
+            return True, f"unpack({t.tolist()}), add 1 to the result in place, unpack again: {r4.tolist()}, expected {exp1.tolist()}", None
+        t.data.copy_(t2)
+        r5 = fn(t)
+        if not torch.equal(r5, orc(t2)):
+            return True, f"payload overwritten through .data with {t2.tolist()}: unpack returns {r5.tolist()}, expected {orc(t2).tolist()}", None
         pa, pb = PackedTensor.pack(orc(t)[: t.shape[0]] % (2**bits), bits), PackedTensor.pack(orc(t2)[: t.shape[0]] % (2**bits), bits)
         return bad, f"unpack({t.tolist()}) then unpack({t2.tolist()}): first result now {r1.tolist()}, expected {orc(t).tolist()}", None
     if inp["kind"] == "ops":
